@@ -162,6 +162,7 @@ void	simk_fd_mark(int fd, int flags);	/* harness: enable short io / faults on fd
 /* signals (simulated) */
 int	simk_raise_process(int sig);		/* process-directed */
 int	simk_raise_thread(int tid, int sig);	/* thread-directed */
+int64_t	simk_next_deadline(void);	/* earliest pending deadline of anything simulated, -1 if none */
 void	simk_fault_once(int site, int err);	/* arm a fault for the calling thread's next call at the site */
 int	simk_fault_once_pending(int site);	/* disarm; returns the errno if it had not fired */
 int	simk_sigaction_query(int sig);		/* 0 SIG_DFL, 1 SIG_IGN, 2 handler */
